@@ -567,6 +567,9 @@ def mk_fn(name, *args):
                 return Poly.from_key(m[0][0][3][2])          # invperm(invperm(p)) == p
             if c == 1 and len(m) == 1 and m[0][1] == 1 and m[0][0][0] == 'fn' and m[0][0][1] == 'arange' and m[0][0][2:] == (args[0],):
                 return inner                                  # the identity permutation
+    if name in ('any', 'all') and len(args) == 1 and args[0][0] == 'B' and Poly.from_key(args[0][2]).is_const():
+        # the same truth value at every position (axes are taken to be non-empty: there is at least one filter, one model, one request)
+        return Poly.from_key(args[0][2])
     if name == 'any' and len(args) == 1 and args[0][0] == 'B':
         # any(not p) == not all(p): one canonical spelling for a negated conjunction
         inner = Poly.from_key(args[0][2])
